@@ -96,15 +96,30 @@ def load_line(src, target):
     return txt.split()
 
 
-def compile_harness(src, out, sources, link_target=None, extra_objs=(), cflags="", asan=True, cxx=False):
+def prefixed_object(src, obj, prefix, out):
+    """Copy of object file <obj> in which every *defined* global symbol is renamed <prefix><name>
+    (undefined references are left alone), so that two programs' translation units can be linked
+    into one harness."""
+    nm = sh("nm --defined-only -g %s" % os.path.join(src, obj)).stdout
+    syms = [l.split()[-1] for l in nm.split("\n") if l.strip()]
+    mapf = out + ".syms"
+    with open(mapf, "w") as f:
+        for s_ in syms:
+            f.write("%s %s%s\n" % (s_, prefix, s_))
+    sh("objcopy --redefine-syms=%s %s %s" % (mapf, os.path.join(src, obj), out))
+    return out
+
+
+def compile_harness(src, out, sources, link_target=None, extra_objs=(), cflags="", asan=True, cxx=False, exclude=()):
     """Compile harness sources against the scratch tree.  If link_target is given, link with the
     objects and libraries of that program (its own main object excluded)."""
     cc = "g++" if cxx else "cc"
     flags = "-O1 -g -I%s -I%s/seq -D%s %s %s" % (src, VERIF, GUARD, ASAN_CC if asan else "", cflags)
     libs = []
     if link_target:
-        libs = [w if w.startswith("-") else os.path.join(src, w) for w in load_line(src, link_target)]
-    libs += [os.path.join(src, o) for o in extra_objs]
+        libs = [w if w.startswith("-") else os.path.join(src, w) for w in load_line(src, link_target)
+                if w not in exclude]
+    libs = [o if (os.path.isabs(o) or o.startswith("-")) else os.path.join(src, o) for o in extra_objs] + libs
     cmd = "%s %s -o %s %s %s -lpthread" % (cc, flags, out, " ".join(sources), " ".join(libs))
     sh(cmd, cwd=src)
     return out
@@ -193,19 +208,57 @@ class Result:
                 sys.exit(2)
         return out
 
+    def run_parallel(self, jobs, workers=16, timeout=None):
+        """jobs: list of (cmd, family).  Runs them concurrently, merges their outputs in order."""
+        from concurrent.futures import ThreadPoolExecutor
+        e = dict(os.environ); e.update(ASAN_ENV)
+
+        def one(job):
+            try:
+                p = subprocess.run(job[0], shell=True, env=e, stdout=subprocess.PIPE, stderr=subprocess.STDOUT,
+                                   text=True, errors="replace", timeout=timeout)
+                return p.returncode, p.stdout or ""
+            except subprocess.TimeoutExpired as ex:
+                return -999, (ex.stdout or b"").decode(errors="replace") if isinstance(ex.stdout, bytes) else (ex.stdout or "")
+        with ThreadPoolExecutor(workers) as ex:
+            outs = list(ex.map(one, jobs))
+        for (cmd, fam), (rc, out) in zip(jobs, outs):
+            self.parse_harness_output(out, fam)
+            if rc == -999:
+                self.exhaustive = False
+                self.notes.append("CAPPED: %s hit the time cap and was stopped; its partial counters are not included" % fam)
+            elif rc not in (0, 1):
+                if "ERROR: AddressSanitizer" in out or "runtime error:" in out:
+                    m = re.search(r"CURRENT-INPUT (.*)", out)
+                    rep = re.search(r"(ERROR: AddressSanitizer[^\n]*|[^\n]*runtime error:[^\n]*)", out)
+                    self.fails.append(("sanitizer:" + fam + ":" + (m.group(1)[:200] if m else "?"),
+                                       "sanitizer report: %s" % (rep.group(1) if rep else "?"), out[-3000:]))
+                else:
+                    sys.stderr.write("HARNESS-ERROR: %s exited %d\n%s\n" % (cmd, rc, out[-3000:]))
+                    sys.exit(2)
+        return outs
+
     def require_nonzero(self, *keys):
-        for k in keys:
-            if not self.stats.get(k):
-                sys.stderr.write("HARNESS-ERROR: non-vacuity counter %s is zero\n" % k)
-                sys.exit(2)
+        """Non-vacuity: these counters must be non-zero, else the run is a harness error -- unless
+        violations were found (a broken tree may legitimately never reach some outcome)."""
+        self.required = getattr(self, "required", []) + list(keys)
 
     def finish(self, coverage_extra=None):
+        if not self.fails:
+            for k in getattr(self, "required", []):
+                if not self.stats.get(k):
+                    sys.stderr.write("HARNESS-ERROR: non-vacuity counter %s is zero\n" % k)
+                    sys.exit(2)
         known = Known()
         nviol = 0
         lines = []
         os.makedirs(os.path.join(VERIF, "replays"), exist_ok=True)
         seen_known = set()
+        seen_keys = set()
         for key, text, body in self.fails:
+            if key in seen_keys:
+                continue
+            seen_keys.add(key)
             m = known.match(self.prop, key)
             if m:
                 if m[0] not in seen_known:
